@@ -273,6 +273,27 @@ def run(tier, seed):
             src, stmts = render(shape, cpu, by[cpu], pools[cpu], rnd, wd, cid)
             meta[cid] = (cpu, shape, src, stmts)
             jobs.append((os.path.join(vdir, "naken_asm"), wd, cid, src))
+    # every pool instruction at two alignments: behind the CPU's shortest instruction and behind itself
+    # (the shapes above draw their instructions; a formatter can be wrong for one instruction at one alignment only)
+    for ci, cpu in enumerate(sorted(pools)):
+        pool = sorted(pools[cpu])
+        rnd.shuffle(pool)
+        if tier == "quick":
+            pool = pool[:48]
+        shortest = min(pool, key=lambda x: (len(x[1]), x[0]))
+        bpa = by[cpu]["bpa"]
+        for k in range(0, len(pool), 12):
+            cid = "%s_sweep%d" % (cpu, k // 12)
+            a = 0x200 - 0x200 % max(bpa, 4)
+            lines = [".%s" % cpu, ".org 0x%x" % (a // bpa)]
+            stmts = [dict(k="org", n=a, m=0, d=0, c=0, name="", listed=True)]
+            for t, b in pool[k:k + 12]:
+                for tt, bb in ((shortest[0], shortest[1]), (t, b), (t, b)):
+                    lines.append("  " + tt)
+                    stmts.append(dict(k="insn", n=len(bb) // 2, m=0, d=0, c=0, name="", listed=True))
+            src = "\n".join(lines) + "\n"
+            meta[cid] = (cpu, [{"k": "sweep", "c": k}], src, stmts)
+            jobs.append((os.path.join(vdir, "naken_asm"), wd, cid, src))
     with ThreadPoolExecutor(C.NCPU) as ex:
         results = list(ex.map(run_one, jobs))
 
@@ -390,7 +411,8 @@ def run(tier, seed):
         evaluations=nreal, traces_validated_against_impl=nreal - nskip,
         distinct_nontrivial=len([1 for cid in parsed if len(meta[cid][1]) >= 3]),
         rule="TLC enumerates statement sequences (org/label/insn/data/resb/macro/repeat/include); each chosen shape is "
-             "rendered per CPU with instructions of that CPU's corpus pool; non-trivial = three or more statements",
+             "rendered per CPU with instructions of that CPU's corpus pool; plus, per CPU, every pool instruction (quick: 48 of them) behind the "
+             "shortest instruction and behind itself; non-trivial = three or more statements",
         cpus=sorted(pools), cpus_without_pool=sorted(set(by) - set(pools)), cpus_mostly_rejected=bad_cpus,
         shapes=len(shapes), programs=len(jobs), rejected_by_assembler=rejected,
         outside_model={k: v for k, v in skipped.items() if not k.startswith("cpus:")},
